@@ -120,7 +120,10 @@ class C17(Prop):
         out.append(case("return float(3);", enc_value(3.0), "float"))
         # match: any line, trimmed
         for s, re, m in [("hello", "/ell/", True), ("hello", "/^ell/", False), ("a\nbcd\ne", "/^bcd$/", True), ("  x  ", "/^x$/", True),
-                         ("ABC", "/abc/", False), ("ABC", "/abc/i", True), ("abc", "/(/", False)]:
+                         ("ABC", "/abc/", False), ("ABC", "/abc/i", True), ("abc", "/(/", False),
+                         # every line is offered to the pattern - the empty ones too: after a final newline, between two newlines, the empty string
+                         ("a\n", "/^$/", True), ("", "/^$/", True), ("abc\n\nd", "/^$/", True), ("x", "/^$/", False), ("a\nb", "/^$/", False), ("\n", "/^$/", True),
+                         ("a\n", "/^a?$/", True), ("", "/^.*$/", True), ("", "/x*/", True), ("a\n  ", "/^$/", True), ("q\n", "/^[^q]*$/", True)]:
             out.append(case("return match(%s, %s);" % (lit(s), re), "b1" if m else "b0", "match"))
             out.append(case("return (%s ~= %s);" % (lit(s), re), "b1" if m else "b0", "match-op"))
         out.append(case('return replace("hello world", /o/, "0");', enc_value("hell0 w0rld"), "replace"))
